@@ -1,6 +1,7 @@
 package chain
 
 import (
+	"github.com/MinterTeam/minter-go-node/coreV2/transaction"
 	"encoding/hex"
 	"encoding/json"
 	"fmt"
@@ -316,6 +317,12 @@ func (w *World) Step(bo *BlockOp) bool {
 		if r.Code == 0 {
 			w.Stats.Accepted++
 			view.NonceAdd[m.Sender]++
+			if d, ok := m.Data.(transaction.EditMultisigData); ok && !m.Garbage && !m.Malleated {
+				if view.MsEdit == nil {
+					view.MsEdit = map[types.Address]*types.Multisig{}
+				}
+				view.MsEdit[m.Sender] = &types.Multisig{Threshold: uint64(d.Threshold), Weights: toU64(d.Weights), Addresses: d.Addresses}
+			}
 		}
 		m.Code = r.Code
 		if m.Dup {
@@ -473,4 +480,12 @@ func fmtUpdates(u []abci.ValidatorUpdate) string {
 		s += fmt.Sprintf("%s:%d ", hex.EncodeToString(x.PubKey.GetEd25519())[:8], x.Power)
 	}
 	return s
+}
+
+func toU64(a []uint32) []uint64 {
+	out := make([]uint64, len(a))
+	for i, x := range a {
+		out[i] = uint64(x)
+	}
+	return out
 }
